@@ -1,6 +1,7 @@
 import CTM.Drive.Util
 import CTM.Drive.Tree
 import CTM.Model.LevelLoop
+import CTM.Drive.Markers
 open Lean
 
 namespace CTM.Drive.LevelLoop
@@ -101,6 +102,24 @@ def handle : Handler := fun op inp =>
         ("runTreeWf", jBool (match runTree t cfg with | .ok rt => wfb rt | .error _ => false)),
         ("effChunk", jNat cs),
         ("chunks", jList (jPair jNat jNat) (chunks n cs))]
+  | "levelloop.setup" => some do
+      -- tree + marker table after the drop_level / flatten blocks, and the
+      -- root gene list of a flattened run (own spec + group E's full stage)
+      let t ← Tree.parseTree (← field inp "tree")
+      let cfg ← parseConfig (← field inp "config")
+      let lk ← CTM.Drive.Markers.parseLookup (← field inp "lookup")
+      let q ← natList (← field inp "Q")
+      let r ← natList (← field inp "R")
+      let m ← asNat (← field inp "m")
+      let stageRoot : Json := match CTM.Markers.stage t lk r q m cfg.dropLevel cfg.flatten with
+        | .ok o => jOpt jNats (o.used.lookup none)
+        | .error e => jObj [("err", jStr e.name)]
+      return jObj [
+        ("setup", jExcept (fun (tl : RawTree × CTM.Markers.Lookup) =>
+            jObj [("tree", Tree.jTree tl.1), ("lookup", CTM.Drive.Markers.jLookup tl.2)])
+          (mapSetup t cfg lk)),
+        ("flatRoot", jNats (flatRootGenes lk r q)),
+        ("stageRoot", stageRoot)]
   | "levelloop.wf" => some do
       let t ← Tree.parseTree (← field inp "tree")
       return jBool (wfb t)
